@@ -215,8 +215,6 @@ class Uranium(FuelMaterial):
         ],
     }
 
-    refDens = 19.07  # the value corresponding to linearExpansionPercent = 0
-
     def thermalConductivity(self, Tk: float = None, Tc: float = None) -> float:
         """The thermal conductivity of pure U in W-m/K."""
         Tk = getTk(Tc, Tk)
@@ -243,6 +241,9 @@ class Uranium(FuelMaterial):
 
         self.setMassFrac("U235", u235.weight * u235.abundance / gramsIn1Mol)
         self.setMassFrac("U238", u238.weight * u238Abundance / gramsIn1Mol)
+        # the value corresponding to linearExpansionPercent = 0 (a class attribute would be
+        # overwritten by Material.__init__)
+        self.refDens = 19.07
 
     def applyInputParams(
         self, U235_wt_frac: float = None, TD_frac: float = None, *args, **kwargs
